@@ -1,0 +1,88 @@
+//go:build verif
+
+package ps
+
+import (
+	"fmt"
+
+	math "github.com/IBM/mathlib"
+)
+
+// Fiat-Shamir oracles of the package for the conformance harness (build tag verif only; add-only: no call site in the package).
+// They are methods of Verifier only so that the harness can discover them with an interface assertion (and skip the checks that
+// need them when they are absent); the receiver is not used. All group elements are passed in their Bytes() encoding.
+
+func verifG1s(in ...[]byte) ([]*math.G1, error) {
+	out := make([]*math.G1, len(in))
+	for i, b := range in {
+		p, err := c.NewG1FromBytes(b)
+		if err != nil {
+			return nil, fmt.Errorf("G1 argument %d: %v", i, err)
+		}
+		out[i] = p
+	}
+	return out, nil
+}
+
+func verifG2s(in ...[]byte) ([]*math.G2, error) {
+	out := make([]*math.G2, len(in))
+	for i, b := range in {
+		p, err := c.NewG2FromBytes(b)
+		if err != nil {
+			return nil, fmt.Errorf("G2 argument %d: %v", i, err)
+		}
+		out[i] = p
+	}
+	return out, nil
+}
+
+// VerifChallengePoK returns the challenge (bytes of the scalar e) that PoKofSig and SigPoK.Verify derive for these values:
+// HashToZr(randomOracleForPoKofSignature(Gamma, Phi, nu, h^eps, g2, X, kappa, Y)).
+func (*Verifier) VerifChallengePoK(gamma, phi, nu, heps, g2, x, kappa []byte, ys [][]byte) ([]byte, error) {
+	g1, err := verifG1s(phi, nu, heps)
+	if err != nil {
+		return nil, err
+	}
+	g2s, err := verifG2s(gamma, g2, x, kappa)
+	if err != nil {
+		return nil, err
+	}
+	Y, err := verifG2s(ys...)
+	if err != nil {
+		return nil, err
+	}
+	return c.HashToZr(randomOracleForPoKofSignature(g2s[0], g1[0], g1[1], g1[2], g2s[1], g2s[2], g2s[3], Y)).Bytes(), nil
+}
+
+// VerifChallengeBlind returns the challenge of the proof that a blinded signing request is well formed:
+// HashToZr(randomOracleForBlindingProof(n, d, f, s, a, b, cm, g, g0, h, u, gs)); cm is the FULL commitment (with gs[n-1]^mPrime).
+func (*Verifier) VerifChallengeBlind(n int, d, f [][]byte, s []byte, a, b [][]byte, cm, g, g0, h, u []byte, gs [][]byte) ([]byte, error) {
+	if len(d) < n || len(f) < n || len(a) < n || len(b) < n || len(gs) < n {
+		return nil, fmt.Errorf("vector arguments shorter than n = %d", n)
+	}
+	D, err := verifG1s(d...)
+	if err != nil {
+		return nil, err
+	}
+	F, err := verifG1s(f...)
+	if err != nil {
+		return nil, err
+	}
+	A, err := verifG1s(a...)
+	if err != nil {
+		return nil, err
+	}
+	B, err := verifG1s(b...)
+	if err != nil {
+		return nil, err
+	}
+	GS, err := verifG1s(gs...)
+	if err != nil {
+		return nil, err
+	}
+	p, err := verifG1s(s, cm, g, g0, h, u)
+	if err != nil {
+		return nil, err
+	}
+	return c.HashToZr(randomOracleForBlindingProof(n, D, F, p[0], A, B, p[1], p[2], p[3], p[4], p[5], GS)).Bytes(), nil
+}
